@@ -5,7 +5,7 @@ cd /verif
 for d in seeded/*/; do
   id=$(basename "$d"); P=$(/venv/bin/python -c "import json;print(json.load(open('$d/meta.json'))['property'])")
   also=""; [ -f "$d/also.txt" ] && also=$(cat "$d/also.txt")
-  res=$(tools/try_seed.sh "$id" $P $also 2>&1)
+  res=$(${SEED_TRY:-tools/try_seed_wt.sh} "$id" $P $also 2>&1)
   det=$(echo "$res" | grep DETECTED | sed -E "s/.* vs (C[0-9]+): DETECTED.*/\1/" | tr '\n' ' ')
   mis=$(echo "$res" | grep -E "MISSED|does not apply" | sed -E "s/.* vs (C[0-9]+): MISSED.*/\1/" | tr '\n' ' ')
   first=$(echo "$res" | grep -m1 DETECTED | sed -E 's/.*violation lines\) *//' | cut -c1-140)
